@@ -593,6 +593,7 @@ func checkC02(c *Ctx) {
 	r.Explanation = "Necessary structural conditions of C02 (all inputs at once): (LA-len) per page, the page header's compressed/uncompressed sizes are the lengths of the body actually written / of its uncompressed input, the chunk totals grow by exactly body + header bytes written (no swap, nothing forgotten), header and chunk value counts are the same quantity — a linear-form evaluation over slice lengths through DoWrite -> WritePageHeader -> updateRowGroup -> updateColumnChunk; (LA-frame) PAR1 is the first thing written, Close writes the footer then PAR1 last, the little-endian 4-byte footer length is the count returned by the write of the serialised metadata; (TV-fields, corpus) the schema inputs handed to the runtime — column list, order, paths, repetition kinds, Types arity — match the struct for every shape; (WH-rows, WH-empty) footer row count from emitted groups, no bytes outside accounted row groups. NOT decided: the schema tree built by schema() (same-named groups under different parents collide), offset sums, thrift encoding, page record limits."
 	laLen(c, "LA-len")
 	laFrame(c, "LA-frame")
+	laOffset(c, "LA-offset")
 	runWHRows(c, "WH-rows")
 	runWHEmpty(c, "WH-empty")
 	// schema inputs over the corpus
@@ -606,4 +607,225 @@ func checkC02(c *Ctx) {
 		r.count("TV/programs", programs)
 	}
 	r.assume("the schema tree construction in schema.schema() from these inputs is NOT decided (value-level)")
+}
+
+// laOffset (C02): chunk offsets are running sums. A necessary condition that is visible in code shape: every
+// loop-carried quantity on the additive spine of the value stored into ColumnChunk.FileOffset / DataPageOffset —
+// an SSA phi, or an integer cell of a local struct — is only ever advanced (new = old + something) inside the loop,
+// never replaced; otherwise offsets stop accumulating after some iteration (e.g. from the third row group on).
+func laOffset(c *Ctx, rule string) {
+	r, u := c.R, c.U
+	targets := []*types.Var{schemaField(u, "ColumnChunk", "FileOffset"), schemaField(u, "ColumnMetaData", "DataPageOffset")}
+	n := 0
+	for _, fld := range targets {
+		if fld == nil {
+			r.failf("%s: schema offset field not found", rule)
+			continue
+		}
+		ctor, other := storesTo(u, fld)
+		for _, st := range append(ctor, other...) {
+			if u.pkgPathOf(st.Parent()) != rtPath {
+				continue
+			}
+			n++
+			key := fmt.Sprintf("%s store to %s", u.FnName(st.Parent()), fld.Name())
+			pos := u.Pos(st.Pos())
+			var bad []string
+			accs := 0
+			seen := map[ssa.Value]bool{}
+			var spine func(v ssa.Value, depth int)
+			inLoop := func(b *ssa.BasicBlock) bool {
+				for _, s := range reachableBlocks(b) {
+					if s == b {
+						return true
+					}
+				}
+				return false
+			}
+			// contains: v keeps the accumulator — it is the accumulator itself, a sum with it, or a phi all of whose
+			// incoming values keep it (nested loops: the outer phi is advanced through the inner loop's phi)
+			contains := func(v ssa.Value, isSelf func(ssa.Value) bool) bool {
+				visiting := map[ssa.Value]bool{}
+				var walk func(x ssa.Value, d int) bool
+				walk = func(x ssa.Value, d int) bool {
+					if d > 12 {
+						return false
+					}
+					if isSelf(x) {
+						return true
+					}
+					if visiting[x] {
+						return true
+					}
+					switch y := x.(type) {
+					case *ssa.BinOp:
+						if y.Op == token.ADD {
+							return walk(y.X, d+1) || walk(y.Y, d+1)
+						}
+					case *ssa.Convert:
+						return walk(y.X, d+1)
+					case *ssa.Phi:
+						visiting[x] = true
+						defer delete(visiting, x)
+						for _, e := range y.Edges {
+							if !walk(e, d+1) {
+								return false
+							}
+						}
+						return true
+					}
+					return false
+				}
+				return walk(v, 0)
+			}
+			spine = func(v ssa.Value, depth int) {
+				if depth > 10 || seen[v] {
+					return
+				}
+				seen[v] = true
+				switch x := v.(type) {
+				case *ssa.BinOp:
+					if x.Op == token.ADD || x.Op == token.SUB {
+						spine(x.X, depth+1)
+						spine(x.Y, depth+1)
+					}
+				case *ssa.Convert:
+					spine(x.X, depth+1)
+				case *ssa.Phi:
+					blk := x.Block()
+					carried := false
+					for i, e := range x.Edges {
+						if blk.Dominates(blk.Preds[i]) {
+							carried = true
+							if !contains(e, func(y ssa.Value) bool { return y == ssa.Value(x) }) {
+								bad = append(bad, fmt.Sprintf("the running offset %q is replaced, not advanced, on the loop back-edge at %s (new value %s)", x.Comment, u.Pos(blk.Preds[i].Instrs[len(blk.Preds[i].Instrs)-1].Pos()), symExpr(e, 0)))
+							}
+						}
+						spine(e, depth+1)
+					}
+					if carried {
+						accs++
+					}
+				case *ssa.Parameter:
+					fn := x.Parent()
+					idx := -1
+					for i, p := range fn.Params {
+						if p == x {
+							idx = i
+						}
+					}
+					for _, g := range u.Funcs {
+						if u.pkgPathOf(g) != rtPath {
+							continue
+						}
+						for _, b := range g.Blocks {
+							for _, ins := range b.Instrs {
+								if call, ok := ins.(ssa.CallInstruction); ok && call.Common().StaticCallee() == fn {
+									spine(callArgs(call.Common())[idx], depth+1)
+								}
+							}
+						}
+					}
+				case *ssa.UnOp:
+					if x.Op != token.MUL {
+						return
+					}
+					// integer cell of a local: all stores to the same cell inside loops must advance it
+					var cellBase *ssa.Alloc
+					var cellFld *types.Var
+					switch a := x.X.(type) {
+					case *ssa.Alloc:
+						cellBase = a
+					case *ssa.FieldAddr:
+						if al, ok := a.X.(*ssa.Alloc); ok {
+							cellBase, cellFld = al, fieldOf(a)
+						}
+					}
+					if cellBase == nil {
+						return
+					}
+					if w, _ := intWidth(x.Type()); w == 0 {
+						return
+					}
+					sameCell := func(addr ssa.Value) bool {
+						switch a := addr.(type) {
+						case *ssa.Alloc:
+							return cellFld == nil && a == cellBase
+						case *ssa.FieldAddr:
+							return cellFld != nil && a.X == ssa.Value(cellBase) && fieldOf(a) == cellFld
+						}
+						return false
+					}
+					// a load that follows a store to the same cell in its own block reads that store's value: a temporary
+					var local *ssa.Store
+					for _, ins := range x.Block().Instrs {
+						if ins == ssa.Instruction(x) {
+							break
+						}
+						if s2, ok := ins.(*ssa.Store); ok && sameCell(s2.Addr) {
+							local = s2
+						}
+					}
+					if local != nil {
+						spine(local.Val, depth+1)
+						return
+					}
+					for _, b := range cellBase.Parent().Blocks {
+						for _, ins := range b.Instrs {
+							s2, ok := ins.(*ssa.Store)
+							if !ok || !sameCell(s2.Addr) {
+								continue
+							}
+							if inLoop(b) {
+								accs++
+								self := func(y ssa.Value) bool {
+									ld, ok := y.(*ssa.UnOp)
+									return ok && ld.Op == token.MUL && sameCell(ld.X)
+								}
+								if !contains(s2.Val, self) {
+									bad = append(bad, fmt.Sprintf("the running size kept in %s is replaced, not advanced, inside the loop at %s", symExpr(x.X, 0), u.Pos(s2.Pos())))
+								}
+							}
+							spine(s2.Val, depth+1)
+						}
+					}
+				case *ssa.Field:
+					// field of a struct value returned by a call: follow the callee's returned struct cell
+					if call, ok := x.X.(*ssa.Call); ok {
+						if sc := call.Call.StaticCallee(); sc != nil && u.InUniverse(sc) {
+							for _, b := range sc.Blocks {
+								if ret, ok := lastInstr(b).(*ssa.Return); ok && len(ret.Results) == 1 {
+									if ld, ok := ret.Results[0].(*ssa.UnOp); ok {
+										if al, ok := ld.X.(*ssa.Alloc); ok {
+											// synthesise a load of the corresponding field cell
+											for _, ref := range *al.Referrers() {
+												if fa, ok := ref.(*ssa.FieldAddr); ok && fa.Field == x.Field {
+													for _, r2 := range *fa.Referrers() {
+														if l2, ok := r2.(*ssa.UnOp); ok {
+															spine(l2, depth+1)
+														}
+													}
+												}
+											}
+										}
+									}
+								}
+							}
+						}
+					}
+				}
+			}
+			spine(st.Val, 0)
+			switch {
+			case len(bad) > 0:
+				r.bad(rule, key, pos, strings.Join(bad, "; "))
+			case accs == 0:
+				r.undecided(rule, key, pos, "no running sum found behind the stored offset: "+symExpr(st.Val, 0))
+			default:
+				r.ok(rule, key, pos, fmt.Sprintf("the offset is a running sum: %d loop-carried accumulator(s) on its additive spine, each only advanced (new = old + size)", accs))
+			}
+		}
+	}
+	r.count(rule+"/offset-stores", n)
+	r.floor(rule+"/offset-stores", 2, "FileOffset and DataPageOffset in Footer")
 }
